@@ -57,6 +57,7 @@ type Violation struct {
 	Sig      string            `json:"signature"`
 	Replayed string            `json:"replayed,omitempty"`
 	Order    []int             `json:"client_start_order,omitempty"`
+	Arrival  []string          `json:"-"` // arrival-sensitive channel sites in force when the entry was explored
 }
 
 type InputVal struct {
@@ -744,8 +745,10 @@ func (ex *Exec) pick(cands, enabled []*G) *G {
 		i = ex.choose('s', len(ord))
 		ex.res.Sched++
 	}
-	for j := 0; j < i; j++ {
-		ex.sleep[ord[j]] = true
+	if os.Getenv("FSX_NOSLEEP") == "" { // (diagnostic switch: exploration without sleep sets)
+		for j := 0; j < i; j++ {
+			ex.sleep[ord[j]] = true
+		}
 	}
 	if curEnabled && !yieldy && ord[i] != ex.cur {
 		ex.preemptions++
@@ -1045,6 +1048,10 @@ func runEntry(prog *Program, entry *ssa.Function, cfg Config, fixed map[string]u
 		before := atomic.LoadInt64(&arrivalNew)
 		er := runEntryOnce(prog, entry, cfg, fixed, prefix, before)
 		if fixed != nil || round >= 4 || atomic.LoadInt64(&arrivalNew) == before {
+			sites := arrivalSiteList()
+			for _, v := range er.Violations {
+				v.Arrival = sites
+			}
 			return er
 		}
 	}
